@@ -279,3 +279,62 @@ func enclosing(root ast.Node, target ast.Node) []ast.Node {
 	})
 	return found
 }
+
+// allNilFacts lists fields of obj compared with nil anywhere in d.
+func allNilFacts(d *declInfo, obj types.Object) []string {
+	var out []string
+	ast.Inspect(d.fd.Body, func(n ast.Node) bool {
+		be, ok := n.(*ast.BinaryExpr)
+		if !ok || (be.Op != token.EQL && be.Op != token.NEQ) {
+			return true
+		}
+		for _, pair := range [][2]ast.Expr{{be.X, be.Y}, {be.Y, be.X}} {
+			if isNilIdent(d.pkg, pair[1]) {
+				if f, ok := fieldOf(d.pkg, pair[0], obj); ok {
+					out = append(out, f)
+				}
+			}
+		}
+		return true
+	})
+	return out
+}
+
+// isEmptyLiteral: the initialiser is a composite literal without elements (`[]T{}`, `map[K]V{}`)
+// or make(T) / make(T, 0).
+func isEmptyLiteral(d *declInfo, fi fieldInit) bool {
+	switch v := fi.value.(type) {
+	case *ast.CompositeLit:
+		return len(v.Elts) == 0
+	case *ast.CallExpr:
+		if id, ok := v.Fun.(*ast.Ident); ok && id.Name == "make" {
+			if len(v.Args) == 1 {
+				return true
+			}
+			if len(v.Args) >= 2 {
+				if c, ok := constOf(d.pkg, v.Args[1]); ok && c.isInt() && c.int() == 0 {
+					return true
+				}
+			}
+		}
+	}
+	return false
+}
+
+// nodeAt finds the syntax node of a field initialisation (for path-condition queries).
+func nodeAt(d *declInfo, fi fieldInit) ast.Node {
+	var found ast.Node
+	ast.Inspect(d.fd.Body, func(n ast.Node) bool {
+		if n != nil && n.Pos() == fi.pos && found == nil {
+			switch n.(type) {
+			case *ast.KeyValueExpr, *ast.AssignStmt:
+				found = n
+			}
+		}
+		return found == nil
+	})
+	if found == nil {
+		return d.fd.Body
+	}
+	return found
+}
